@@ -213,7 +213,7 @@ def tgt_sm(ctx, sp, out, shift):
 def tgt_bms(ctx, sp, out, shift):
     data = out.write()
     lines = data.split(b"\r\n")
-    d = ref_bms.parse(ctx, lines, c04.layout("BME"))
+    d = ref_bms.parse(ctx, lines, c04.ref_layout("BME"))
     ctx.check("target.syntax", not d["ill_formed"], note="%r" % d["ill_formed"][:2])
     got_h = sorted((o["col"], o["pos"]) for o in d["hits"])
     got_l = sorted((o["col"], o["pos"], o["end"]) for o in d["holds"])
